@@ -3,7 +3,7 @@
 cd "$(dirname "$0")"
 export PYTHONPATH=/repo:/verif/harness PYTHONHASHSEED=0 PYTHONDONTWRITEBYTECODE=1
 sh coq/mk_project.sh
-if [ -x harness/gen_coq.py ] || [ -f harness/gen_coq.py ]; then /venv/bin/python harness/gen_coq.py || exit 1; sh coq/mk_project.sh; fi
+for g in harness/gen_coq*.py; do [ -f "$g" ] && { /venv/bin/python "$g" || echo "setup: $g failed"; }; done; sh coq/mk_project.sh
 (cd coq && timeout 7000 make -j16 -k) || echo "setup: coq make reported errors (checks will report them per property)"
 /venv/bin/python - <<'PY'
 import os, sys, glob
